@@ -38,6 +38,13 @@ def _ledger_models(tier, invariants, properties, epsilon_model=False):
                         fees="paid", bids=(8, 12), spreads=(2,), dqs=(-1, 2), invariants=invariants, properties=properties))
     # every PATH of three (thorough: four) operations - no VIEW, the history is part of the state - including discontinuations
     # and one-sided quotes: histories that the specification identifies are all replayed
+    # a bid that falls to exactly zero (legal: only a negative mid is refused) and recovers: a liquidation price of 0 is a
+    # price, not a missing one
+    ms.append(model("sf-zero-bid", ["F5"], ["quote", "trade", "value", "markall"], 6, fees="free", bids=(0, 8), spreads=(2,),
+                    dqs=(-1, 1), invariants=invariants, properties=properties))
+    # orders priced on an earlier book and executed through Broker.transact after the book has moved
+    ms.append(model("sf-offbook", ["S5", "F5"], ["quote", "trade", "tradeat", "value"], 4 if tier == "quick" else 5, fees="paid",
+                    bids=(8, 12), spreads=(0, 2), dqs=(-1, 2), invariants=invariants, properties=properties))
     ms.append(model("sf-paths", ["S5", "F5"], BASE_OPS + ["lots", "disc", "half"], 3 if tier == "quick" else 4, fees="paid",
                     bids=(8,), spreads=(0, 2), dqs=(-1, 2), lots=[{"S5": 1, "F5": -1}, {}],
                     invariants=invariants, properties=properties, all_paths=True))
@@ -143,7 +150,7 @@ def c03(tier, seed):
         "{-1,-1/2,1/2,1,3/2} x NLV on two contracts and small lot vectors; prior holdings from every history of the model "
         "up to the depth bound; trades below 1e-9 of NLV are 'nothing of economic size'",
     ]
-    inv = ["TargetReached", "FrictionlessNlv", "NoSpuriousFailure"]
+    inv = ["TargetReached", "FrictionlessNlv", "FrictionlessWeights", "NoSpuriousFailure"]
     props = ["SecondRebalanceIdle"]
     h = F(1, 2)
     reqs_a = [req({"S1": h, "F4": h}), req({"S1": -h, "F4": F(3, 2)}), req({"F4": F(-1)}), req({"S1": F(3, 2)}),
